@@ -33,6 +33,14 @@ type c14Amino struct {
 }
 
 func runC14(r *core.Run) {
+	defer pairsInLongSequences(r, "ATGAAATAGATGCCCGGGTTTAAAcccgggATGTAG", []pairLongFn{
+		{"Translate(nil, seq)", func(in []byte) []byte { return sequtil.Translate(nil, in) }, func(in []byte) ([]byte, bool) { return ref.Translate(in) }},
+	})
+	defer srcWindows(r, "ACGTacgt", 6, []string{"ATGAAATAGATGCCCGGGTTTAAACCCGGGATGTAG", string(longSeq(300))}, []srcWindowFn{
+		{"Translate(nil, seq)", func(in []byte) { sequtil.Translate(nil, in) }},
+		{"Translate(dst with spare capacity, seq)", func(in []byte) { sequtil.Translate(make([]byte, 2, 64), in) }},
+		{"TranslateReadingFrames(seq)", func(in []byte) { sequtil.TranslateReadingFrames(in) }},
+	})
 	firstCallClause(r, "sequtil.Translate", "sequtil.AminoName")
 	askedAgain(r, []againFunc{
 		{"AminoName", func(in []byte) string {
